@@ -170,9 +170,13 @@ def drive_b(rec, ks, quick):
     mods, eps = entry_points(L, n)
     events = []
     for k in ks:
-        for rep in range(3 if quick else 8):
+        nrep = 3 if quick else 8
+        for rep in range(nrep + 1):
             asz = rng.randrange(1, 6)
             rsz = rng.choice([0, asz, asz, max(0, asz - 1), asz + 1, rng.randrange(0, 7)])
+            if rep == nrep:     # directed: many dropped low limbs (more than 64 bits of them) under a maximal carry chain
+                rsz = rng.choice([0, 1, 1, 2])
+                asz = rsz + 64 // k + 2 + rng.randrange(1, 3)
             A = patterns(k, asz, n, rng)
             variant, mk = eps[(k + rep) % len(eps)]
             alias = rng.random() < 0.3 and variant != "range"
